@@ -43,6 +43,17 @@ MRUC_OVERRIDES = {
 }
 
 
+# external callees some of whose declared bounds are never exercised: the named bounds are ignored, the others (the
+# closure parameter!) still count
+BOUND_OVERRIDES = {
+    "<indexmap::IndexMap as MutableKeys>::retain2": (
+        ("BuildHasher", "Hash", "Eq", "Equivalent"),
+        "retain2 compacts the entries Vec and rebuilds the hash table from the STORED hashes: it never hashes or compares keys; "
+        "the only user code it runs is its closure"),
+    "indexmap::map::MutableKeys::retain2": (("BuildHasher", "Hash", "Eq", "Equivalent"), "see above (unresolved form)"),
+}
+
+
 def is_marker(trait):
     return trait.startswith(MARKER_PREFIX) or trait in ("std::ops::Drop", "core::ops::Drop", "std::marker::Destruct")
 
@@ -111,11 +122,18 @@ class FX:
             preds = f.get("preds") or []
         unresolved_trait_call = bool(f.get("trait")) and not res
         if target is None:
+            ign = ()
+            for kk in ((res or {}).get("key"), f["key"]):
+                if kk in BOUND_OVERRIDES:
+                    ign = BOUND_OVERRIDES[kk][0]
+                    self.overrides_used[kk] = BOUND_OVERRIDES[kk][1]
             for p in preds:
                 if p["kind"] != "trait":
                     continue
                 tr = p["trait"]
                 if is_marker(tr):
+                    continue
+                if ign and tr.split("::")[-1] in ign:
                     continue
                 sp = p["self_params"]
                 allp = p["params"]
@@ -275,7 +293,10 @@ class FX:
                         if ci.key in ("std::mem::swap", "std::mem::replace", "std::mem::take"):
                             for ai, a in enumerate(args):
                                 aty = operand_ty(fn, t["args"][ai])
-                                if "store::Store<" in aty and aty.startswith("&mut"):
+                                # exactly one level: `mem::swap(&mut longer, &mut shorter)` on two `&mut Store` HANDLES exchanges
+                                # the handles, not the stores
+                                if aty.replace(" ", "").startswith(("&mutstore::Store<", "&'_mutstore::Store<")) or (
+                                        aty.startswith("&") and "mut store::Store<" in aty and aty.count("&") == 1):
                                     ev["kind"] = "tw"
                                     ev["comp"] = "*"
                                     ev["how"] = "call:" + ci.key
